@@ -161,6 +161,40 @@ fn big_scenario(sizes: &[u64], large: &[bool], dirs: u64, comment: &[u8], method
     match r { Ok(Ok(s)) => s, Ok(Err(e)) => format!("FAIL {e}"), Err(m) => format!("FAIL panic {m}") }
 }
 
+
+/// The COMPRESSED-size guard of an entry not declared large: Deflate level 0 emits stored blocks (5 bytes of
+/// overhead per 65535 bytes), so `usize` zero bytes just below 4 GiB compress to MORE than 0xFFFFFFFF bytes
+/// while the uncompressed counter never trips.  Closing the entry must fail; whatever the caller does next
+/// (`extra` more bytes through `write`, then `finish`), no call may report success for a corrupt archive.
+fn cguard_scenario(usize_: u64, extra: u64) -> String {
+    let r = catch(move || -> Result<String, String> {
+        let mut w = zip::ZipWriter::new(Sparse::new());
+        let o = zip::write::FileOptions::default().compression_method(zip::CompressionMethod::Deflated).compression_level(Some(0)).last_modified_time(zip::DateTime::default());
+        w.start_file("f0", o).map_err(|e| format!("start:{}", zerr_class(&e)))?;
+        write_zeros(&mut w, usize_).map_err(|e| format!("write:{}", ioerr_class(&e)))?;
+        // closing the entry: must be refused (compressed size does not fit 32 bits, no ZIP64 record was reserved)
+        let first = w.start_file("f1", o.compression_method(zip::CompressionMethod::Stored).compression_level(None));
+        if first.is_ok() { return Err("closing an entry whose compressed size exceeds 0xFFFFFFFF succeeded without large_file".into()); }
+        let mut trace = String::from("close=err");
+        if extra > 0 {
+            match write_zeros(&mut w, extra) { Ok(()) => trace += " write=ok", Err(_) => trace += " write=err" }
+        }
+        match w.finish() {
+            Err(_) => { trace += " finish=err"; Ok(trace) }
+            Ok(sink) => {
+                trace += " finish=ok";
+                // a success must be a readable archive whose entry is the data that was written
+                let mut a = zip::ZipArchive::new(sink).map_err(|e| format!("{trace}: finish() reported success but the archive does not open: {}", zerr_class(&e)))?;
+                let mut f = a.by_index(0).map_err(|e| format!("{trace}: entry 0: {}", zerr_class(&e)))?;
+                let n = std::io::copy(&mut f, &mut std::io::sink()).map_err(|e| format!("{trace}: finish() reported success but entry 0 does not read back: {}", ioerr_class(&e)))?;
+                if n != usize_ + extra { return Err(format!("{trace}: entry 0 reads {n} bytes, {} were written", usize_ + extra)); }
+                Ok(trace)
+            }
+        }
+    });
+    match r { Ok(Ok(s)) => s, Ok(Err(e)) => format!("FAIL {e}"), Err(m) => format!("FAIL panic {m}") }
+}
+
 const EDGE: [u64; 14] = [0, 1, 0xFFFE, 0xFFFF, 0x10000, 0xFFFFFFFE, 0xFFFFFFFF, 0x100000000, 0x100000001, 0x140000000, 0x7FFFFFFFFFFFFFFF, 0xFFFFFFFFFFFFFFFE, 0xFFFFFFFFFFFFFFFF, 12345];
 
 impl Stream for Z64 {
@@ -204,6 +238,11 @@ impl Stream for Z64 {
                     g.push("big.offset", format!("z64.big sizes={sz},{} large={lg},0 dirs=1 comment=78", t - 1));
                 }
             }
+        }
+        // the COMPRESSED-size guard (Deflate level 0 = stored blocks: 4 GiB - 100000 zero bytes compress to more
+        // than 0xFFFFFFFF bytes); afterwards the caller keeps writing and finishes
+        if tier == "thorough" {
+            for extra in [0u64, 1, 40, 100000] { g.push("big.cguard", format!("z64.cguard usize={} extra={extra}", (1u64 << 32) - 100000)); }
         }
         g
     }
@@ -262,14 +301,14 @@ impl Stream for Z64 {
                 });
                 r.unwrap_or_else(|_| "panic".into())
             }
-            "z64.big" => "oracle-only".into(),
+            "z64.big" | "z64.cguard" => "oracle-only".into(),
             _ => "bad-op".into(),
         }
     }
 
     fn nontrivial(&self, line: &str, _resp: &str) -> bool {
         let (_, a) = parse_line(line);
-        ["us", "cs", "hs", "size", "off"].iter().any(|k| get_u64(&a, k).map(|v| v >= 0xFFFFFFFF).unwrap_or(false)) || line.starts_with("z64.big")
+        ["us", "cs", "hs", "size", "off"].iter().any(|k| get_u64(&a, k).map(|v| v >= 0xFFFFFFFF).unwrap_or(false)) || line.starts_with("z64.big") || line.starts_with("z64.cguard")
     }
 
     fn oracle(&self, line: &str, resp: &str) -> Vec<OracleFailure> {
@@ -293,6 +332,10 @@ impl Stream for Z64 {
                 let large: Vec<bool> = parse_list(a.get("large").map(|s| s.as_str()).unwrap_or("-")).iter().map(|v| *v == 1).collect();
                 let res = big_scenario(&sizes, &large, n("dirs"), &get_hex(&a, "comment").unwrap_or_default(), n("method") as u16);
                 if res.starts_with("FAIL") { f.push(OracleFailure { what: format!("sparse-sink scenario: {res}") }); }
+            }
+            "z64.cguard" => {
+                let res = cguard_scenario(n("usize"), n("extra"));
+                if res.starts_with("FAIL") { f.push(OracleFailure { what: format!("compressed-size guard: {res}") }); }
             }
             _ => {}
         }
